@@ -35,6 +35,15 @@ def spec(tier):
         obs.append(CH(name=f"timing_oc{int(oc)}", harness="c04.memory_step",
                       sym=dict(t1=I(0, 3), t2=I(0, 3), sus_at=I(-1, 4), dA=I(1, 3), x0=I(0, 12)),
                       fixed=dict(oc=oc, kinds=["F", "G", "F"], cap=60 if oc else 200, a0=10, a1=45, a2=30, x1=45, x2=20), timeout=900))
+    # full simulations under the shipped schedulers
+    from vf.props.common import pipe
+    for algo, pools, oc in (("naive", 2, False), ("priority", 1, False), ("priority-pool", 2, False), ("overbook", 1, True)):
+        cfg = dict(algo=algo, pools=pools, oc=oc, multi=True, K=12 if th else 10,
+                   pipes=[pipe("chain3", prio=3, at=0, durs=[1, 2, 1], mems=[1, "ma", 1], reads=[0, 0, 0]),
+                          pipe("single", prio=1, at=2, durs=[2], mems=["mb"]),
+                          pipe("chain2", prio=2, at=1, durs=[1, 1], mems=[None, 1], reads=[45, 0])])
+        obs.append(CH(name=f"sim_{algo}", harness="c04.sim_memory", sym=dict(cpus=I(1, 10), ma=I(1, 12), mb=I(1, 12), **({"ram": I(1, 14)} if algo in ("naive", "overbook") else {})),
+                      fixed=dict(cfg=cfg, **({} if algo in ("naive", "overbook") else {"ram": 30})), timeout=900))
     tsym = dict(x0=I(0, 30), a0=I(1, 30), x1=I(0, 65), a1=I(1, 70), cap=I(20, 90))
     tfix = dict(oc=True, kinds=["F", "G", "F"], sus_at=1, dA=1, t1=0, t2=1, a2=30, x2=10)
     for w in ("kill", "pool_kill", "suspended"):
